@@ -1,4 +1,4 @@
-\* C11 behaviour generation (tlc -simulate): one directory, <= 4 operations, every action recorded
+\* C11 extended history class: a configured directory is renamed away and a new one created at its path
 SPECIFICATION Spec
 CONSTANTS
   D = {"A"}
@@ -9,7 +9,7 @@ CONSTANTS
   STARTS = {TRUE, FALSE}
   WithTmp = TRUE
   WithShortage = FALSE
-  WithRenameAway = FALSE
+  WithRenameAway = TRUE
   FIX_CREATE = TRUE
   FIX_READD = TRUE
   FIX_STALE = TRUE
